@@ -44,7 +44,7 @@ def watch():
 
 
 def cases(tier):
-    return 2400 if tier == "quick" else 60000
+    return 4000 if tier == "quick" else 150000
 
 
 def floors(tier):
